@@ -1,6 +1,7 @@
 import Driver.Util
 import NutsModel.C11.Revocation
 import NutsModel.C11.Wire
+import NutsModel.C11.ValidAt
 import NutsModel.Facts.C11
 open Lean Nuts.Drv Nuts.C11 Nuts
 
@@ -372,7 +373,10 @@ def step (w : World) (j : Json) : World × List String :=
     let sts := (jArr j "statuses").map fun s => ({ list := .raw (jStr s "url"), idx := atoi (jStr s "idx") } : StatusEntry)
     let c : Cred := { id := if jStr j "id" == "" then none else some (jStr j "id"), issuer := jStr j "issuer"
                       statuses := if sts.isEmpty then none else some sts }
-    let (v, w') := verifyFullF env true w c (jStr j "kind" == "nutsorg") (jBool j "storefault")
+    -- validAt = now + `at` minutes (absent: nil); the harness credential is issued one hour ago and never expires
+    let atMin := jInt j "at"
+    let (v, w') := verifyAt env true w c (jStr j "kind" == "nutsorg") (jBool j "storefault")
+      (if atMin == 0 then none else some atMin) 0 (fun t => decide (-60 ≤ t))
     (w', ["vverify " ++ verdictStr v])
   -- third harness (vcr, ambassador): a revocation event delivered by the network, with injected store faults
   | "areset" => ({ a := { base := bases[0]! }, b := { base := "https://verifier.example" } }, ["areset"])
